@@ -9,7 +9,7 @@ import Mathlib.Tactic.LinearCombination
 -/
 namespace Sfx
 
-theorem Outcome.ok_false_bind {α β : Type} (v : α) (g : α → Outcome β) :
+theorem Outcome.ok_false_bindF {α β : Type} (v : α) (g : α → Outcome β) :
     (Outcome.ok v false >>= g) = g v := by
   show Outcome.bind _ _ = _
   unfold Outcome.bind
@@ -117,7 +117,7 @@ theorem combine_spec (s : Bool) (n f : Nat) (hn : 0 < n) (hf0 : f ≠ 0) (hf : f
       rw [show wrapI false 32 ((n : Int) - f) = wrapU 32 ((n : Int) - f) from rfl, wrapU_of_in hin]
       simp only [hin, decide_true, Bool.not_true]
       congr 1; omega
-    rw [hsub, Outcome.ok_false_bind]
+    rw [hsub, Outcome.ok_false_bindF]
     simp only [Int.toNat_natCast]
     have hshl : ushl s n (P / 2 ^ n) (n - f) = .ok (wrapI s n (P / 2 ^ n * 2 ^ (n - f))) false := by
       unfold ushl shlI
@@ -127,7 +127,7 @@ theorem combine_spec (s : Bool) (n f : Nat) (hn : 0 < n) (hf0 : f ≠ 0) (hf : f
       unfold ushr shrI
       rw [Nat.mod_eq_of_lt hfl]
       simp; omega
-    rw [hshl, Outcome.ok_false_bind, hshr, Outcome.ok_false_bind]
+    rw [hshl, Outcome.ok_false_bindF, hshr, Outcome.ok_false_bindF]
     show Outcome.ok _ _ = _
     -- the exact quotient
     have hE : P / 2 ^ f = P % 2 ^ n / 2 ^ f + P / 2 ^ n * 2 ^ (n - f) := by
